@@ -31,7 +31,8 @@ DIRECTED = ["lyric x", "section x", "x", "lyric", "section", "lyric ", "section 
 def required(tier):
     return ["kind:lyric", "kind:section", "kind:text", "inner_quote_in_lyric_or_section", "keyword_without_blank_is_text",
             "empty_remainder", ">=2_kinds_in_one_chart", "repeated_tick", "concurrent_stage", "ticks_not_in_file_order_within_one_tempo_segment",
-            "long_runs_of_one_kind_then_another", "unclaimed_lines_among_the_events", "whole_generated_chart"]
+            "long_runs_of_one_kind_then_another", "unclaimed_lines_among_the_events", "whole_generated_chart",
+            "lf_and_crlf_mixed_in_one_file", "no_line_terminator_after_the_last_brace", "direct_section_entry:generator", "direct_section_entry:iterator"]
 
 
 def shards(tier, seed):
@@ -83,7 +84,8 @@ def make_case(rng, i):
     secs = [(n_, b + (["", "  "] if junk else [])) if n_ == "SyncTrack" else ((n_, b) if n_ != "Events" else (n_, lines)) for n_, b in case["sections"]]
     if rng.random() < 0.3:
         rng.shuffle(secs)
-    return {"text": gen.render_sections(secs, "\r\n" if i % 4 == 3 else "\n"), "truth": truth, "junk": junk}, texts, ticks
+    newline = {3: "\r\n", 7: "mixed"}.get(i % 8, "\n")  # "mixed": LF and CRLF endings within one file
+    return {"text": gen.render_sections(secs, newline, final=i % 5 != 1), "truth": truth, "junk": junk, "sections": [[n_, b] for n_, b in secs]}, texts, ticks
 
 
 def run_shard(shard, rec, tier, seed):
@@ -97,7 +99,13 @@ def run_shard(shard, rec, tier, seed):
         case, texts, ticks = make_case(rng, i)
         out, ob, d = mcheck.judge(rec, ("C09",), case)
         keep.add(case)
+        if d is not None and not d.of("C09") and i % 2 == 0 and not mcheck.direct_sections(rec, ("C09",), case, out):
+            continue
         if d is not None and not d.of("C09"):
+            if i % 8 == 7:
+                rec.cls("lf_and_crlf_mixed_in_one_file")
+            if i % 5 == 1:
+                rec.cls("no_line_terminator_after_the_last_brace")
             kinds = set()
             for raw, kind in texts:
                 rec.cls(f"kind:{kind}")
